@@ -140,7 +140,7 @@ func refAllowed(mode string, token bool, tokenHost string, hosts []string, user 
 func c03(env *Env, rep *Report) {
 	rep.Rule = "product of host-selection modes {any, signed, roundrobin, unsigned, \"\", bogus} x token auth {off, on with token host = each candidate} x 4 host lists (plain, with user placeholder, IPv6 literal, entry without port) x users {\"\", alice, bob, alice-host} x ~90 channel requests derived from every list entry " +
 		"(exact, without terminator, ports +-1/0/65535, name carrying :port, one/two/embedded NULs, every proper prefix, one-character extensions and prefixes, suffixes, superstring, upper case, another user's substituted entry, bracketed / IPv6 / zone forms, surrogate pairs, lone surrogates, odd length, length field shorter/longer/0xFFFF/0, resource counts 0/2, alternates 1). " +
-		"Plus two-user histories (user A then user B, 5 tunnels one after the other on the same gateway process, list and token modes): a user must still reach its own substituted entry and never another user's. Each case is one execution of the real Processor with the real security.CheckSession/CheckHost wired as main.go does, all dials observed by the network shim. Oracle: reference policy over an independent UTF-16 decoding; allowed well-formed request => exactly one dial to JoinHostPort(name,port) and status 0; refused => E_PROXY_RAP_ACCESSDENIED, zero dials to any address; malformed => dials only to allowed addresses. distinct_nontrivial = distinct cases."
+		"Plus two-user histories (user A then user B, 5 tunnels one after the other on the same gateway process, list and token modes): a user must still reach its own substituted entry and never another user's. Plus schedules: two tunnels whose real tokens (for different hosts) are verified by the real security.CheckPAACookie at the same time, the userinfo round trip being a scheduling point, one of them asking for the other's host (deviation bound 2, thorough 3). Each case is one execution of the real Processor with the real security.CheckSession/CheckHost wired as main.go does, all dials observed by the network shim. Oracle: reference policy over an independent UTF-16 decoding; allowed well-formed request => exactly one dial to JoinHostPort(name,port) and status 0; refused => E_PROXY_RAP_ACCESSDENIED, zero dials to any address; malformed => dials only to allowed addresses. distinct_nontrivial = distinct cases."
 	rep.Assumptions = append(rep.Assumptions,
 		"host names are compared byte-exact; a letter-case variant of an allowed name is classified unspecified and not judged",
 		"cookie acceptance is simulated by the table checker which sets token host / user exactly as security.CheckPAACookie does (C02 covers the JWT path)",
@@ -238,6 +238,11 @@ func c03(env *Env, rep *Report) {
 		}
 		return "", "", obs
 	}
+	if env.Replay != nil && env.Replay["scenario"] != nil {
+		sc := c03ConcScenario()
+		replayConc(rep, sc, env.Replay, nil, c03ConcCheck(sc))
+		return
+	}
 	if env.Replay != nil {
 		rp := env.Replay
 		g := func(k string) string { s, _ := rp[k].(string); return s }
@@ -334,6 +339,16 @@ func c03(env *Env, rep *Report) {
 			}
 		}
 	}
+	// schedules: two tunnels verified at the same time by the real security.CheckPAACookie (the userinfo round
+	// trip to the identity provider is a scheduling point): A's token is for host ha and A asks for B's host hb
+	if env.Replay == nil {
+		sc := c03ConcScenario()
+		b := 2
+		if env.thorough() {
+			b = 3
+		}
+		exploreConc(env, rep, sc, b, nil, c03ConcCheck(sc))
+	}
 	if gwBin() != "" && env.Shard == 0 {
 		bindCore(rep, "C03")
 		bindModes(rep, "C03")
@@ -348,6 +363,45 @@ func c03(env *Env, rep *Report) {
 	}
 	rep.add("distinct", int64(distinct))
 	rep.add("states", int64(distinct))
+}
+
+func c03ConcScenario() ConcScenario {
+	return ConcScenario{Name: "two-real-tokens-cross-request", Deviation: true, RoundRobin: true, RealCookie: true,
+		Gw: GwCfg{TokenAuth: true, HostSelection: "roundrobin", Hosts: []string{"ha.example:3389", "hb.example:3389"}, VerifyIP: true},
+		Plans: []TunnelPlan{
+			{Kind: "ws", ConnID: "A", User: "alice", IP: "10.0.0.1", Host: "hb.example:3389", TokenHost: "ha.example:3389", Script: []string{"drop"}},
+			{Kind: "ws", ConnID: "B", User: "bob", IP: "10.0.0.1", Host: "hb.example:3389", Script: []string{"data:x", "drop"}},
+		}}
+}
+
+func c03ConcCheck(sc ConcScenario) func(res *ConcResult, races []RaceReport) (string, []vsched.Violation) {
+	return func(res *ConcResult, races []RaceReport) (string, []vsched.Violation) {
+		var v []vsched.Violation
+		add := func(k, d string) { v = append(v, vsched.Violation{Sig: "C03/" + k + "/" + sc.Name, Detail: d}) }
+		for _, p := range res.X.Panics() {
+			add("panic:"+shortFn(panicSite(p)), p.Value)
+		}
+		a, b := res.Tunnels[0], res.Tunnels[1]
+		dials := 0
+		for _, d := range res.World.Net.Dials {
+			if d.Address != "hb.example:3389" {
+				add("dial-to-unrequested-address", d.Address)
+			}
+			dials++
+		}
+		// A holds a token for ha: its request for hb is refused with the policy status and never dialled
+		want := "got-9-status-" + fmt.Sprintf("%x", tsgu.ERAPAccessDenied) + "-waiting-for-9"
+		if a.SetupFailed != want {
+			add("host-outside-the-token-not-refused", fmt.Sprintf("tunnel A (token for ha.example, asks hb.example): %q, want %q", a.SetupFailed, want))
+		}
+		if b.SetupFailed != "" {
+			add("allowed-host-refused", "tunnel B (token for hb.example, asks hb.example): "+b.SetupFailed)
+		}
+		if dials > 1 {
+			add("dial-for-refused-host", fmt.Sprintf("%d connections to hb.example, only tunnel B may have one", dials))
+		}
+		return fmt.Sprintf("A=%q B=%q dials=%d", a.SetupFailed, b.SetupFailed, dials), v
+	}
 }
 
 // c03TwoUsers: user u1 opens a channel to its own placeholder entry; then, on the
